@@ -22,9 +22,11 @@ GRAMMARS = {
     # falsy but present values: a named closure that matches nothing ([]), a named pattern that matches '' (classes from the generated module)
     'falsy_values': ("start::Call: name=/[a-z]/ '(' args={arg} ')' [mark=mark] ;\narg::Arg: /[0-9]/ ;\nmark::Mark: bangs=/!*/ ';' ;\n",
                      {'start': ('Call', []), 'arg': ('Arg', []), 'mark': ('Mark', [])}),
+    # builtin type names on rules that HAVE named elements (the value is still converted by the builtin, never wrapped in a class of that name)
+    'builtin_named': ("start::Top: s=span f=[flag] ;\nspan::tuple: lo=/[0-9]/ hi=/[0-9]/ ;\nflag::bool: v='!' ;\n", {'start': ('Top', [])}),
     'builtin': ("start::Num: n=num rest=[word] ;\nnum::int: /[0-9]+/ ;\nword::str: /[a-z]+/ ;\n", {'start': ('Num', [])}),
 }
-WARM = ['', 'a', 'f()', 'f(1)', 'f();', 'f()!;', 'a,b', '[a]', '[ab', '[]', 'a,', 'a1', 'a1b', 'ab', 'a b', 'a12', '1', 'ab!', '(a)', 'a-b', 'a-b-a', 'b', 'aa', '12a', '1a', 'a 1', '((a', 'a-a', 'a1 2', 'ab1']
+WARM = ['', 'a', '12', '12!', '1', '1 2', '12 !', 'f()', 'f(1)', 'f();', 'f()!;', 'a,b', '[a]', '[ab', '[]', 'a,', 'a1', 'a1b', 'ab', 'a b', 'a12', '1', 'ab!', '(a)', 'a-b', 'a-b-a', 'b', 'aa', '12a', '1a', 'a 1', '((a', 'a-a', 'a1 2', 'ab1']
 
 
 def make_model(spec):
@@ -121,6 +123,11 @@ def make_model(spec):
         if spec['grammar'] == 'builtin':
             want = dict(plain_ast)
             want['n'] = int(plain_ast['n'])
+        if spec['grammar'] == 'builtin_named':
+            # the builtins convert the rule's AST: tuple(dict) is the tuple of its keys, bool(dict) is its truth value
+            want = dict(plain_ast)
+            want['s'] = list(tuple(plain_ast['s']))
+            want['f'] = bool(plain_ast['f']) if plain_ast['f'] is not None else None
         if plainify(m) != want:
             return f'model-differs-from-ast {plainify(m)!r} != {want!r}'[:150]
         nodes = all_nodes(m)
